@@ -78,6 +78,27 @@ Theorem C17g_link_char :
 Proof. exact link_char. Qed.
 Print Assumptions C17g_link_char.
 
+Theorem C17g_link_all_unicode :
+  forall v : list N, M_fn_all_unicode v = Some (StrMisc.all_unicode v).
+Proof. exact link_all_unicode. Qed.
+Print Assumptions C17g_link_all_unicode.
+
+Theorem C17g_link_map_to_unicode :
+  forall v : list N, M_fn_map_to_unicode v = Some (StrMisc.map_to_unicode v).
+Proof. exact link_map_to_unicode. Qed.
+Print Assumptions C17g_link_map_to_unicode.
+
+Theorem C17g_link_is_unicode :
+  forall s : SmtString, M_SmtString_is_unicode s = Some (StrMisc.smt_is_unicode (w s)).
+Proof. exact link_is_unicode. Qed.
+Print Assumptions C17g_link_is_unicode.
+
+Theorem C17g_link_to_unicode_string :
+  forall s : SmtString,
+       M_SmtString_to_unicode_string s = Some (StrMisc.smt_to_unicode_string (w s)).
+Proof. exact link_to_unicode_string. Qed.
+Print Assumptions C17g_link_to_unicode_string.
+
 (* ---- every constructor hands out SMT characters only ---- *)
 
 Theorem C17g_from_slice_good :
